@@ -266,6 +266,9 @@ def compare_results(base, twin, rec, ctx, tag):
                 bad.append((f"shape:{name}", f"{label}.{name}: {x.shape} vs {y.shape}"))
                 continue
             rec.count("variables_compared")
+            if (np.isnan(x) != np.isnan(y)).any():
+                bad.append((f"nan-pattern:{name}", f"{label}.{name}: NaN entries differ between declaration orders"))
+                continue
             scale = max(np.nanmax(np.abs(x)) if x.size else 0.0, 1e-12)
             if name.endswith("_phase"):
                 d = np.abs(np.angle(np.exp(1j * (x - y))))
